@@ -45,7 +45,7 @@ REQUIRED_STATS = ['histories', 'runs_in_histories', 'foreign_thread_reads', 'thr
 
 
 def n_cases(tier):
-    return 420 if tier == 'quick' else 6000
+    return 420 if tier == 'quick' else 1500
 
 
 def make_case(seed, index, tier):
